@@ -502,6 +502,29 @@ def _seed_probe_ok(fm: FuncModel, n: ast.Assign, L: str) -> list[str]:
         if not any(sks & {fm.key(x.args[0], a_), fm.key(x.args[1], a_)} for x, a_ in inter):
             probs.append("the motifs avoided by the probe are not intersected with the successor's space: a sibling that is "
                          "disjoint from the successor still removes candidates from it (its projection is a larger region)")
+        # the reduction to the successor's free variables keeps the variables that are NOT fixed by the successor
+        for x, a_ in list(elts):
+            if isinstance(x, ast.Name):           # `y = {..}; L.append(y)`
+                sd_y = fm.single_def(x.id, a_)
+                if sd_y is not None and sd_y[1] is not None:
+                    x, a_ = sd_y[1], sd_y[0]
+            if isinstance(x, ast.DictComp) and len(x.generators) == 1 and len(x.generators[0].ifs) == 1 \
+                    and isinstance(x.generators[0].target, ast.Tuple) and len(x.generators[0].target.elts) == 2:
+                t_ = x.generators[0].ifs[0]
+                neg_ = False
+                while isinstance(t_, ast.UnaryOp) and isinstance(t_.op, ast.Not):
+                    t_, neg_ = t_.operand, not neg_
+                kv_ = text(x.generators[0].target.elts[0])
+                if isinstance(t_, ast.Compare) and len(t_.ops) == 1 and isinstance(t_.ops[0], (ast.In, ast.NotIn)) and text(t_.left) == kv_:
+                    keeps_free = isinstance(t_.ops[0], ast.NotIn) != neg_
+                    over = fm.key(t_.comparators[0], a_)
+                    if over in sks and not keeps_free:
+                        probs.append(f"line {x.lineno}: the avoided motifs are reduced to the variables the successor FIXES (`{text(t_)[:50]}`); "
+                                     f"the probe runs on the successor's reduced net, whose variables are the free ones, so the avoided "
+                                     f"regions no longer describe the expanded siblings")
+                    elif over not in sks and over.startswith("FIELD<") and over.endswith("|space>"):
+                        probs.append(f"line {x.lineno}: the avoided motifs are reduced relative to `{text(t_.comparators[0])[:40]}`, not to the "
+                                     f"space of the successor that is probed")
         if not _from_expanded_children(fm, av, at, 0):
             probs.append("the probe avoids motifs of children that are not known to be expanded: candidates covered only "
                          "by an unexpanded sibling would be dropped")
